@@ -129,7 +129,55 @@ fn check_last_op(prog: &Rc<Prog>, setup: &Setup, hist: &[Op], stats: &mut Stats)
                     }
                 }
             }
-            Op::Cont => {} // a continue that ended in an error: no requirement
+            _ => {} // (a continue that ended in an error: no requirement)
+        }
+        // the same outermost continue, time-sliced: some slices of k steps (virtual clock), then
+        // run to the end. It is ONE continue: every change made in any slice is notified once,
+        // with the value the variable has when the continue completes.
+        if matches!(last, Op::Cont) && r.starts_with("ok") && bad.is_none() {
+            'budgets: for k in [1u64, 2, 3, 5, 8, 13] {
+                let Ok((mut i2, _)) = Inst::build(prog, setup, pre) else { break };
+                let m0 = i2.events_raw().len();
+                let mut pending = false;
+                for _ in 0..3 {
+                    let r1 = i2.apply(&Op::ContAsync(k));
+                    pending = r1 == "ok:pending";
+                    if !pending {
+                        break;
+                    }
+                }
+                if pending {
+                    let r2 = i2.apply(&Op::ContAsyncFinish);
+                    if !r2.starts_with("ok") {
+                        continue;
+                    }
+                }
+                if i2.fuel_exhausted || i2.dead.is_some() {
+                    continue;
+                }
+                stats.inc("sliced_continues_judged");
+                let ev2: Vec<String> = i2.events_raw()[m0.min(i2.events_raw().len())..].to_vec();
+                let notes2 = parse_events(&ev2);
+                let after2 = i2.observe(false);
+                for (o, v) in &regs_before {
+                    let mine: Vec<&Note> = notes2.iter().filter(|n| n.obs == *o && n.var == *v).collect();
+                    let mult = regs_before.iter().filter(|(a, b)| a == o && b == v).count();
+                    let (pb, pa) = (polled(&before, v), polled(&after2, v));
+                    if mine.len() > mult {
+                        bad = Some(("continue-sliced/notified-twice".into(), format!("o{o} got {} notifications for {v} in one continue run in slices of {k} step(s)", mine.len())));
+                    } else if pb != pa && mine.len() != mult {
+                        bad = Some(("continue-sliced/change-not-notified".into(), format!("{v} changed from {pb} to {pa} during a continue run in slices of {k} step(s) but o{o} got {} notification(s)", mine.len())));
+                    } else if let Some(n) = mine.iter().find(|n| n.val != pa) {
+                        bad = Some(("continue-sliced/stale-or-uncommitted-value".into(), format!("o{o} was told {v}={} but the variable is {pa} when the sliced continue completes", n.val)));
+                    }
+                    if bad.is_some() {
+                        break 'budgets;
+                    }
+                }
+            }
+        }
+        match last {
+            Op::Cont => {}
             Op::SetVar(var, _) if r == "ok" => {
                 for (o, v) in &regs_before {
                     let mine: Vec<&Note> = notes.iter().filter(|n| n.obs == *o && n.var == *v).collect();
